@@ -233,7 +233,14 @@ func (tr *Translator) expr(e Expr) tv {
 		if kt, ok := tr.f.p.ghostMaps[x.Name]; ok {
 			ks := tr.f.p.sortOf(tr.goType(kt))
 			tr.f.enc.declSortOf(ks)
-			return tv{tr.stVar(x.Name, ArrSort(ks, SInt)), nil}
+			vs := SInt
+			if vt, ok := tr.f.p.ghostVals[x.Name]; ok {
+				vs = tr.f.p.sortOf(tr.goType(vt))
+				tr.f.enc.declSortOf(vs)
+				// remember the Go type of the values for indexing
+				return tv{tr.stVar(x.Name, ArrSort(ks, vs)), types.NewMap(tr.goType(kt), tr.goType(vt))}
+			}
+			return tv{tr.stVar(x.Name, ArrSort(ks, vs)), nil}
 		}
 		return tv{tr.stVar(x.Name, SInt), tyInt}
 	case *EUnary:
@@ -438,6 +445,10 @@ func (tr *Translator) index(x, i tv) tv {
 		return tv{atTerm(f.enc, es, tr.innerOf(x.t, et), SOff(x.t), i.t), et}
 	case x.t.Sort == SStr:
 		return tv{App(SInt, "byteAt", x.t, i.t), types.Typ[types.Uint8]}
+	case x.ty != nil && strings.HasPrefix(string(x.t.Sort), "(Array"):
+		if mt, ok := x.ty.Underlying().(*types.Map); ok {
+			return tv{Select(x.t, i.t), mt.Elem()}
+		}
 	case x.ty != nil:
 		if mt, ok := x.ty.Underlying().(*types.Map); ok {
 			return tv{tr.f.mapGet(tr.state(), mt, x.t, i.t), mt.Elem()}
@@ -514,6 +525,15 @@ func (tr *Translator) quant(x *EQuant) tv {
 	for _, grp := range x.Patterns {
 		var ts []string
 		for _, pe := range grp {
+			// has(m, k) as a trigger: the raw domain lookup (the nil-map guard is not a term a pattern may contain)
+			if c, ok := pe.(*ECall); ok && c.Fn == "has" && len(c.Args) == 2 {
+				m, k := tr.expr(c.Args[0]), tr.expr(c.Args[1])
+				if mt, ok := m.ty.Underlying().(*types.Map); ok {
+					_, d, _, ds, _, _ := tr.f.mapParts(mt)
+					ts = append(ts, Select(Select(tr.stVar(d, ds), m.t), k.t).S)
+					continue
+				}
+			}
 			ts = append(ts, tr.expr(pe).t.S)
 		}
 		pats = append(pats, ":pattern ("+strings.Join(ts, " ")+")")
@@ -598,6 +618,26 @@ func (tr *Translator) call(c *ECall) tv {
 			tr.fail("has() on non-map")
 		}
 		return tv{f.mapHas(tr.state(), mt, m.t, k.t), tyBool}
+	case "seqcat":
+		// q followed by all elements of slice p (the term the engine builds for a write of non-constant length)
+		q, sl := arg(0), arg(1)
+		stp, ok := sl.ty.Underlying().(*types.Slice)
+		if !ok {
+			tr.fail("seqcat needs a slice")
+		}
+		es := f.p.sortOf(stp.Elem())
+		fn := f.enc.declFun("seqcat_"+sortSuffix(q.t.Sort), []Sort{q.t.Sort, ArrSort(SInt, es), SInt, SInt}, q.t.Sort)
+		return tv{App(q.t.Sort, fn, q.t, tr.innerOf(sl.t, stp.Elem()), SOff(sl.t), SLen(sl.t)), q.ty}
+	case "runeat":
+		tr.f.enc.declFun("runeAt", []Sort{SStr, SInt}, SInt)
+		return tv{App(SInt, "runeAt", arg(0).t, arg(1).t), tyInt}
+	case "runelen":
+		tr.f.enc.declFun("runeLen", []Sort{SStr, SInt}, SInt)
+		return tv{App(SInt, "runeLen", arg(0).t, arg(1).t), tyInt}
+	case "utf8len":
+		return tv{App(SInt, utf8Fns(tr.f.enc)[0], arg(0).t), tyInt}
+	case "utf8byte":
+		return tv{App(SInt, utf8Fns(tr.f.enc)[1], arg(0).t, arg(1).t), tyInt}
 	case "buflen":
 		// number of bytes written so far to a bytes.Buffer / strings.Builder (pointer to it)
 		return tv{Select(tr.stVar("BUF_len", ArrSort(SInt, SInt)), arg(0).t), tyInt}
@@ -934,6 +974,18 @@ func (tr *Translator) specApp(sf *SpecFn, args []tv) tv {
 	return tv{App(rs, fn, ts...), rty}
 }
 
+// utf8Fns: uninterpreted UTF-8 encoding of a rune (length and bytes) with the facts the contracts rely on: ASCII runes
+// encode as themselves, every byte of a longer encoding is >= 0x80.
+func utf8Fns(e *Enc) [2]string {
+	l := e.declFun("utf8len", []Sort{SInt}, SInt)
+	b := e.declFun("utf8byte", []Sort{SInt, SInt}, SInt)
+	if len(e.facts[l]) == 0 {
+		e.addFact(l, "(assert (forall ((r!u Int)) (! (and (<= 1 (utf8len r!u)) (<= (utf8len r!u) 4) (= (< r!u 128) (= (utf8len r!u) 1))) :pattern ((utf8len r!u)))))")
+		e.addFact(b, "(assert (forall ((r!u Int) (i!u Int)) (! (and (<= 0 (utf8byte r!u i!u)) (<= (utf8byte r!u i!u) 255) (=> (and (<= 0 r!u) (< r!u 128) (= i!u 0)) (= (utf8byte r!u i!u) r!u)) (=> (and (>= r!u 128) (<= 0 i!u) (< i!u (utf8len r!u))) (>= (utf8byte r!u i!u) 128))) :pattern ((utf8byte r!u i!u)))))")
+	}
+	return [2]string{l, b}
+}
+
 // readSort: sort of a state variable named in a reads clause before it was touched by code.
 func (f *Frame) readSort(name string) Sort {
 	switch {
@@ -964,8 +1016,22 @@ func (f *Frame) readSort(name string) Sort {
 	case strings.HasPrefix(name, "#"):
 		if kt, ok := f.p.ghostMaps[name]; ok {
 			tvv, err := types.Eval(f.p.fset, f.p.pkg.Types, token.NoPos, kt)
+			if err != nil {
+				for _, file := range f.p.pkg.Syntax {
+					if tvv, err = types.Eval(f.p.fset, f.p.pkg.Types, file.End()-1, kt); err == nil {
+						break
+					}
+				}
+			}
 			if err == nil {
-				return ArrSort(f.p.sortOf(tvv.Type), SInt)
+				vs := SInt
+				if vt, ok := f.p.ghostVals[name]; ok {
+					if tv2, err2 := types.Eval(f.p.fset, f.p.pkg.Types, token.NoPos, vt); err2 == nil {
+						vs = f.p.sortOf(tv2.Type)
+						f.enc.declSortOf(vs)
+					}
+				}
+				return ArrSort(f.p.sortOf(tvv.Type), vs)
 			}
 		}
 		return SInt
